@@ -211,7 +211,7 @@ pub fn run(tier: Tier) -> i32 {
     let started = std::time::Instant::now();
     let a = inkgen::ITEM_NAMES.len();
     let (fams, depth, secs): (Vec<(&str, usize)>, usize, u64) = match tier {
-        Tier::Quick => (vec![("seg", 1), ("seg", 2), ("loop", 1), ("loop", 2), ("stitch", 1), ("stitch", 2)], 4, 50),
+        Tier::Quick => (vec![("seg", 1), ("seg", 2), ("loop", 1), ("loop", 2), ("stitch", 1)], 4, 55),
         Tier::Thorough => (vec![("seg", 1), ("seg", 2), ("seg", 3), ("loop", 1), ("loop", 2), ("stitch", 1), ("stitch", 2)], 5, 2400),
     };
     let counts: Vec<usize> = fams.iter().map(|(_, k)| inkgen::seg_count(*k, a)).collect();
